@@ -572,13 +572,19 @@ func (t fakeTransport) BatchDeliver(c context.Context, b []byte, recipients []*u
 
 type fakeCommon struct{ w *world }
 
-func (f fakeCommon) auth(name string) (bool, error) {
+func (f fakeCommon) auth(name string, rw http.ResponseWriter) (bool, error) {
 	if f.w.call(name, true) {
 		return false, f.w.failed()
 	}
 	switch f.w.spec["auth"] {
 	case "denied":
 		f.w.resp(okR(false))
+		// "it is expected that the implementation handles writing to the ResponseWriter"
+		if cw, ok := rw.(*countingWriter); ok && f.w.spec["authSilent"] == nil {
+			f.w.call("app:writeHeader", false, 401.0)
+			f.w.resp(nil)
+			_ = cw
+		}
 		return false, nil
 	case "error":
 		return false, f.w.failed()
@@ -588,11 +594,11 @@ func (f fakeCommon) auth(name string) (bool, error) {
 }
 
 func (f fakeCommon) AuthenticateGetInbox(c context.Context, w http.ResponseWriter, r *http.Request) (context.Context, bool, error) {
-	ok, err := f.auth("authGetInbox")
+	ok, err := f.auth("authGetInbox", w)
 	return c, ok, err
 }
 func (f fakeCommon) AuthenticateGetOutbox(c context.Context, w http.ResponseWriter, r *http.Request) (context.Context, bool, error) {
-	ok, err := f.auth("authGetOutbox")
+	ok, err := f.auth("authGetOutbox", w)
 	return c, ok, err
 }
 
@@ -644,7 +650,7 @@ func (f fakeFed) PostInboxRequestBodyHook(c context.Context, r *http.Request, ac
 }
 
 func (f fakeFed) AuthenticatePostInbox(c context.Context, w http.ResponseWriter, r *http.Request) (context.Context, bool, error) {
-	ok, err := f.auth("authPostInbox")
+	ok, err := f.auth("authPostInbox", w)
 	return c, ok, err
 }
 
@@ -772,7 +778,7 @@ func (f fakeSocial) PostOutboxRequestBodyHook(c context.Context, r *http.Request
 }
 
 func (f fakeSocial) AuthenticatePostOutbox(c context.Context, w http.ResponseWriter, r *http.Request) (context.Context, bool, error) {
-	ok, err := fakeCommon{f.w}.auth("authPostOutbox")
+	ok, err := fakeCommon{f.w}.auth("authPostOutbox", w)
 	return c, ok, err
 }
 
